@@ -5,18 +5,18 @@ namespace Fs.Json
 theorem arrow_path (v : Val) (p : Path) : arrow v (.path p) = specNav v p := by
   cases v <;> simp [arrow, specNav, PathLit.parse, navDuck_eq_get]
 
-theorem eval_nav (doc : Json) (n : Nav) : evalDuck doc n.toE = evalSpec doc n.toE := by
+theorem eval_nav (doc : Env) (n : Nav) : evalDuck doc n.toE = evalSpec doc n.toE := by
   induction n with
   | col => rfl
   | path n p ih => simp only [Nav.toE, evalDuck, evalSpec, ih, arrow_path]
 
-theorem eval_navout (doc : Json) (n : Nav) : evalDuck doc n.out = evalSpec doc n.toE := by
+theorem eval_navout (doc : Env) (n : Nav) : evalDuck doc n.out = evalSpec doc n.toE := by
   cases n with
   | col => rfl
   | path n p => simp only [Nav.out, Nav.toE, evalDuck, evalSpec, eval_nav, arrow_path]
 
 /-- the rewritten access evaluates to the navigated value (C11_nav core) -/
-theorem eval_accout (doc : Json) (a : Acc) (h : a.ok = true) : evalDuck doc a.out = evalSpec doc a.toE := by
+theorem eval_accout (doc : Env) (a : Acc) (h : a.ok = true) : evalDuck doc a.out = evalSpec doc a.toE := by
   cases a with
   | nav n => exact eval_navout doc n
   | brk n i =>
@@ -37,7 +37,7 @@ theorem specNav_cases (v : Val) (p : Path) :
   | none => simp [ofOpt]
   | some j' => cases j' <;> simp [ofOpt]
 
-theorem eval_outScalar_path (doc : Json) (n : Nav) (p : Path) :
+theorem eval_outScalar_path (doc : Env) (n : Nav) (p : Path) :
     evalDuck doc (Acc.outScalar (.nav (.path n p))) =
       scalarOf (evalSpec doc (Nav.toE (.path n p))) := by
   simp only [Acc.outScalar, evalDuck, Nav.toE, evalSpec, eval_nav, arrow2, arrow_path]
@@ -100,7 +100,7 @@ theorem duckText_duckText (v : Val) : duckText (duckText v) = duckText v := by
   cases v <;> try rfl
   rename_i b; cases b <;> rfl
 
-theorem evalSpec_path_cases (doc : Json) (n : Nav) (p : Path) :
+theorem evalSpec_path_cases (doc : Env) (n : Nav) (p : Path) :
     let v := evalSpec doc (Nav.toE (.path n p))
     v = .null ∨ (∃ j, v = .json j) ∨ (∃ e, v = .err e) ∨ v = .unsup := by
   simp only [Nav.toE, evalSpec]; exact specNav_cases _ _
@@ -112,7 +112,7 @@ theorem pipeline_isNull (a : Acc) : pipeline (.isNull a.toE) = .isNull a.out := 
   rw [topDown_isNull _ _ rfl, topDown_isNull _ _ rfl, prec_mid]
 
 /-- **every use of an extracted value**: the rewritten tree evaluates in DuckDB to the specified value -/
-theorem use_correct (doc : Json) (u : Use) (h : u.ok doc = true) :
+theorem use_correct (doc : Env) (u : Use) (h : u.ok doc = true) :
     evalDuck doc (pipeline u.toE) = evalSpec doc u.toE := by
   cases u with
   | bare a => simp only [Use.toE, pipeline_bare]; exact eval_accout doc a h
@@ -222,7 +222,7 @@ theorem evalBin_agree (o : Op) (a b : Val) (h : (o == .eq && mixedEq a b) = fals
   cases a <;> cases b <;> (try rfl) <;> (try (simp [mixedEq] at h))
   all_goals first | (rename_i j _; cases j <;> rfl) | (rename_i j; cases j <;> rfl)
 
-theorem ctx_correct (doc : Json) (c : Ctx) (h : c.ok doc = true) :
+theorem ctx_correct (doc : Env) (c : Ctx) (h : c.ok doc = true) :
     evalDuck doc (pipeline c.toE) = evalSpec doc c.toE := by
   induction c with
   | use u => exact use_correct doc u h
